@@ -22,7 +22,7 @@ def run(repo: Repo, chk: Check) -> None:
         "O1 both lookups build exactly '_ldap._tcp.dc._msdcs' (+ '.' + domain iff a domain is given; string-domain evaluation over the "
         "cases domain given / empty / None) and call resolve(name, 'SRV', search=True); O2 the selection normalises to 'priority ascending, "
         "then weight descending, take first' (sort specification, or for a hand written scan the truth table of its comparison over all 9 sign "
-        "vectors); O3 target = str(record.target) with trailing dots stripped, port/weight/priority copied to the same-named fields; "
+        "vectors); O3 target = str(record.target) with trailing dots stripped, port/weight/priority copied to the same-named fields, records kept under a key only when the key is the position in the answer (no record can replace another before ranking); "
         "O4 the API functions look up only when no server is given and use the record's target; sync and async lookups are twins (same "
         "decorators, same path signatures) and neither is memoised."
     )
